@@ -162,24 +162,39 @@ def eigen_shift(ctx, rep, rule: str) -> None:
 
 
 def retry_rule(ctx, rep, rule: str) -> None:
+    """The except-handler of the decomposition, walked for all four (flag, dtype-is-float64) cases: it retries eigh on the
+    double-precision copy exactly for (flag set, dtype not float64) and re-raises in the other three."""
     repo = ctx.repo
     fi = repo.func(f"{MF}:matrix_eigenvalue_decomposition")
+    m = fi.module
     tries = [n for n in A.walk_no_nested(fi.node) if isinstance(n, ast.Try)]
-    ok = len(tries) == 1 and len(tries[0].handlers) == 1
-    detail = f"{len(tries)} try statement(s)"
-    if ok:
-        h = tries[0].handlers[0]
-        ifs = [s for s in h.body if isinstance(s, ast.If)]
-        ok = len(ifs) == 1 and len(h.body) == 1
-        if ok:
-            t = ifs[0]
-            cond = _norm(t.test)
-            retry = any("eigh" in _norm(c.func) and ".double()" in _norm(c) for s in t.body for c in A.calls(s))
-            reraise = any(isinstance(s, ast.Raise) for s in t.orelse)
-            cond_ok = "retry_double_precision" in cond and "float64" in cond and " and " in cond and "!=" in cond
-            ok = retry and reraise and cond_ok and h.name is not None
-            detail = f"handler: `if {cond}` retries eigh on A.double() ({retry}); otherwise re-raises ({reraise}); condition requires the flag and a non-float64 dtype ({cond_ok})"
-    rep.ob(rule, "retry-or-reraise", ok, fi.loc(tries[0]) if tries else fi.loc(), detail, sample=True)
+    if len(tries) != 1 or len(tries[0].handlers) != 1:
+        rep.ob(rule, "retry-or-reraise", False, fi.loc(), f"{len(tries)} try statement(s) / handlers: expected one try with one handler around eigh")
+        return
+    h = tries[0].handlers[0]
+    flag_params = [p for p in fi.params if p == "retry_double_precision"]
+    if not flag_params:
+        raise AnalysisError("matrix_eigenvalue_decomposition has no retry_double_precision parameter")
+    atoms = set()
+    for n in ast.walk(ast.Module(body=h.body, type_ignores=[])):
+        if isinstance(n, ast.If):
+            atoms |= A.test_atoms(n.test)
+    dtype_atoms = [a for a in atoms if "float64" in a and "dtype" in a]
+    flag_atoms = [a for a in atoms if a == "retry_double_precision"]
+    bad = []
+    n_cases = 0
+    for flag in (True, False):
+        for is64 in (True, False):
+            val = {a: is64 for a in dtype_atoms} | {a: flag for a in flag_atoms}
+            stmts, end = A.walk_path(h.body, val)
+            retried = any(A.callee_name(repo, m, c) == "torch.linalg.eigh" and c.args and _norm(c.args[0]) == "A.double()" for s in stmts for c in A.calls(s))
+            want_retry = flag and not is64
+            n_cases += 1
+            if want_retry and not (retried and end == "end"):
+                bad.append(f"flag set, dtype {'float64' if is64 else 'lower'}: expected a retry on A.double(), handler ends with {end} (retried={retried})")
+            if not want_retry and not (end == "raise" and not retried):
+                bad.append(f"flag {'set' if flag else 'unset'}, dtype {'float64' if is64 else 'lower'}: expected a re-raise, handler ends with {end} (retried={retried})")
+    rep.ob(rule, "retry-or-reraise", not bad and h.name is not None, fi.loc(tries[0]), f"handler walked for {n_cases} (flag, dtype) cases: retry on A.double() only with the flag and a non-float64 dtype, re-raise otherwise" + (": " + "; ".join(bad[:2]) if bad else ""), sample=True)
 
 
 def decomposition_outputs_consistent(ctx, rep, rule: str) -> None:
